@@ -155,10 +155,10 @@ theorem depsOf_congr (db : Db) (hns : NoUnsetup db) (req : Required) (Q : Prod â
     âˆ€ f top depth st, Q top â†’ depsOf db f req top true depth st = depsOf db f [] top true depth st := by
   intro f
   induction f with
-  | zero => intro top depth st _; simp [depsOf]
+  | zero => intro top depth st _; simp [depsOf, depsOfG]
   | succ k ih =>
     intro top depth st htop
-    unfold depsOf
+    unfold depsOf depsOfG
     exact depsLoop_congr db req Q hQ _ _ _ _ (fun p dp st' hp => ih p dp st' hp) top htop depth
       (tableMissing_false hns) _ _ _ (fun _ h => h) (table_noUnsetup hns top)
 
